@@ -377,7 +377,7 @@ class ReprMethod(MethodDescriptor):
             if attr not in exclude_attrs
         }
 
-        def object_repr(obj, indent=False):
+        def object_repr(obj, indent=False, parents=()):
             if obj is self:
                 return "<self>"
             if inspect.ismethod(obj):
@@ -393,12 +393,26 @@ class ReprMethod(MethodDescriptor):
                 except TypeError:
                     pass
 
+            if indent and isinstance(
+                obj, (MutableSequence, MutableMapping, MutableSet)
+            ):
+                # Collections that (directly or indirectly) contain themselves
+                # are cut off in the same way as in the builtin representations.
+                if any(obj is parent for parent in parents):
+                    return "[...]" if isinstance(obj, MutableSequence) else "{...}"
+                parents = (*parents, obj)
+
             if indent:
                 if isinstance(obj, MutableSequence):
                     if not obj:
                         return "[]"
                     items_repr = textwrap.indent(
-                        ",\n".join([object_repr(item, indent=indent) for item in obj]),
+                        ",\n".join(
+                            [
+                                object_repr(item, indent=indent, parents=parents)
+                                for item in obj
+                            ]
+                        ),
                         "    ",
                     )
                     return f"[\n{items_repr}\n]"
@@ -408,7 +422,7 @@ class ReprMethod(MethodDescriptor):
                     items_repr = textwrap.indent(
                         ",\n".join(
                             [
-                                f"{repr(key)}: {object_repr(item, indent=indent)}"
+                                f"{repr(key)}: {object_repr(item, indent=indent, parents=parents)}"
                                 for key, item in obj.items()
                             ]
                         ),
@@ -419,7 +433,12 @@ class ReprMethod(MethodDescriptor):
                     if not obj:
                         return "set()"
                     items_repr = textwrap.indent(
-                        ",\n".join([object_repr(item, indent=indent) for item in obj]),
+                        ",\n".join(
+                            [
+                                object_repr(item, indent=indent, parents=parents)
+                                for item in obj
+                            ]
+                        ),
                         "    ",
                     )
                     return f"{{\n{items_repr}\n}}"
